@@ -212,7 +212,7 @@ func (r *Recorder) violate(prop, kind, cause, format string, args ...interface{}
 		// showed F2's signature, violations of the AppendEntries contract may be its consequence.
 		cause += "+F2"
 	}
-	if (prop == "C10" || prop == "C11") && r.c.Cfg.Membership && r.anyTaint["F4"] && kind != "snapshot-config" && !strings.Contains(cause, "+F4") {
+	if (prop == "C10" || prop == "C11") && r.c.Cfg.Membership && r.anyTaint["F4"] && !strings.Contains(cause, "+F4") {
 		// Snapshots on top of a history that F4 has already split (a C09 divergence was reported
 		// in this run): their content and labels are judged against one of the two histories.
 		for cl := range r.seenClass {
